@@ -21,7 +21,7 @@ def program_set(kind):
 
 
 def installers(names):
-    table = {"dfa": dfa_contracts.install, "merge": dfa_contracts.install_merge}
+    table = {"dfa": dfa_contracts.install, "merge": dfa_contracts.install_merge, "fallthrough": dfa_contracts.install_fallthrough}
     try:
         from ..rtc import more_contracts
         table.update(more_contracts.INSTALLERS)
